@@ -89,7 +89,27 @@ var zzRouteSets = [][]string{
 	{"/", "/:p", "/a"},
 	{"/a/b/c", "/a/:p/:q", "/:r/b/c", "/*w"},
 	{"/ab", "/ac", "/a:p", "/a/*w"},
+	{"/u/:id/abc", "/u/:id/ab", "/u/:id"},
+	{"/:y/abc", "/:x/", "/s"},
 }
+
+// parameter names of a pattern, in order
+func zzParamNames(pattern string) []string {
+	var out []string
+	for i := 0; i < len(pattern); i++ {
+		if pattern[i] == ':' || pattern[i] == '*' {
+			j := i + 1
+			for j < len(pattern) && pattern[j] != '/' {
+				j++
+			}
+			out = append(out, pattern[i+1:j])
+			i = j
+		}
+	}
+	return out
+}
+
+func zzNoop(c context.Context, ctx *app.RequestContext) {}
 
 func zzPermute(routes []string, k int) []string {
 	// k-th permutation (Lehmer code)
@@ -125,6 +145,10 @@ func ZZ_C06_H1() {
 	perm := zz.Choose("order", zzFact(len(set)))
 	order := zzPermute(set, perm)
 	e := zzNewEngine()
+	// engine-level middleware attached by separate Use calls (handler slices get spare capacity)
+	for i := 0; i < 3*zz.Choose("engineUses", 2); i++ { // none, or three separate calls (len 3, cap 4)
+		e.Use(zzNoop)
+	}
 	hit := -1
 	for _, r := range order {
 		// identify the route by its index in the canonical set
@@ -158,7 +182,8 @@ func ZZ_C06_H1() {
 	if v.handlers == nil {
 		return
 	}
-	v.handlers[0](context.Background(), nil)
+	// the route's own handler is the last one of its chain
+	v.handlers[len(v.handlers)-1](context.Background(), nil)
 	zz.Assert("route-chosen-by-priority-rule", hit == wi)
 	zz.Assert("full-path-is-registered-pattern", v.fullPath == set[wi])
 	zz.Assert("param-count", len(ps) == len(wv))
@@ -170,6 +195,16 @@ func ZZ_C06_H1() {
 			}
 		}
 		zz.Assert("param-values-are-matched-substrings", same)
+		names := zzParamNames(set[wi])
+		keys := len(names) == len(ps)
+		if keys {
+			for k := range names {
+				if ps[k].Key != names[k] {
+					keys = false
+				}
+			}
+		}
+		zz.Assert("param-keys-are-the-pattern-names", keys)
 	}
 }
 
